@@ -49,7 +49,8 @@ Usable(s, T, strict) ==
 
 AnyOfOK(sets, have) == \A n \in DOMAIN sets : sets[n] \cap have # {}
 
-SameTree(s, p, q) == p \in Providers(s) /\ q \in Providers(s) /\ s.rp[p].root = s.rp[q].root
+\* membership of a tree is a matter of the parent links (the stored root pointer is C09's business)
+SameTree(s, p, q) == p \in Providers(s) /\ q \in Providers(s) /\ TrueRoot(s, p) = TrueRoot(s, q)
 
 \* providers that can satisfy a suffixed group (one provider for everything)
 GroupProviders(s, T, g, strict) ==
